@@ -262,6 +262,8 @@ PREAMBLE = '''
 uint64_t G_g, G_h;          /* ghost index parameters (left nondeterministic by the harness) */
 int64_t  G_NOW;             /* the clock reading of this call */
 uint64_t G_RAND;            /* the outcome of the random source in this call */
+cstl_ms  G_MS;              /* the one duration value converted to ns in this call, and its image */
+int64_t  G_NS;
 int64_t cstl_now(void) { return G_NOW; }
 uint64_t cstl_rand_range(uint64_t a, uint64_t b)
 {
@@ -297,6 +299,8 @@ def classify(res, unit, linemap, srcname):
     base = dict(prop=prop, desc=desc, status=res.get('status'), file=os.path.basename(f), line=line, function=fn)
     if 'vacuity sentinel' in desc:
         return dict(base, id=unit.id + '/vacuity', kind='vacuity', tags=[])
+    if desc.startswith('model bound') or 'native: ' in desc:
+        return dict(base, id=unit.id + '/model-bound:' + prop, kind='spec-sanity', tags=[])
     if 'unwinding assertion' in desc or prop.endswith('.unwind') or '.unwind.' in prop:
         return dict(base, id=unit.id + '/unwind:' + prop, kind='unwind', tags=[])
     m = re.search(r'\[((?:C\d+\s*)+)\]', desc)
